@@ -283,16 +283,25 @@ def run_ts(ctx, variants=("plain", "asan")):
     os.makedirs(scratch, exist_ok=True)
     eff = probe_effective(ctx, scratch)
     ctx.extra["ts_effective_factors"] = {"%d/%s" % (k[0], "u24" if k[1] == U24 else "f32"): v for k, v in sorted(eff.items())}
-    cases = gen_cases(ctx, eff)
-    mlines = [model_line(c) for c in cases]
-    model = [flatten_model(x) for x in vlib.run_model("ts", mlines)]
+    all_cases = gen_cases(ctx, eff)
     dist = {}
     nbad = 0
+    # in batches: the delivered lists of a few thousand cases (tens of millions of entries in the thorough tier) do not fit in memory at once
+    BATCH = 250
+    for b0 in range(0, len(all_cases), BATCH):
+        nbad = _run_ts_batch(ctx, all_cases[b0:b0 + BATCH], b0, variants, scratch, dist, nbad)
+    ctx.extra.setdefault("distribution", {}).update({"ts": dist})
+    return nbad
+
+
+def _run_ts_batch(ctx, cases, b0, variants, scratch, dist, nbad):
+    mlines = [model_line(c) for c in cases]
+    model = [flatten_model(x) for x in vlib.run_model("ts", mlines)]
     for variant in variants:
         sel = [i for i, c in enumerate(cases) if variant == "asan" or not c.get("fault")]
         if variant == "asan" and ctx.tier == "quick":
             sel = [i for i in sel if len(cases[i]["keys"]) <= 130 or cases[i].get("fault")]
-        paths = [os.path.join(scratch, "%s_%d.jls" % (variant, i)) for i in sel]
+        paths = [os.path.join(scratch, "%s_%d.jls" % (variant, b0 + i)) for i in sel]
         scripts = [prog_script(cases[i], p) for i, p in zip(sel, paths)]
         outs = vlib.run_c(variant, "prog", scripts, args=[scratch])
         for i, p, script, out in zip(sel, paths, scripts, outs):
@@ -325,7 +334,7 @@ def run_ts(ctx, variants=("plain", "asan")):
                         "heap is overrun; C11/C12 require the records back" % ("annotation" if c["kind"] == "a" else "UTC", d, n, impl.split(" ")[0], m.split(" ")[0]))
                 if not agree:
                     nbad += 1
-                    ctx.violation("ts_fault_model_%d.txt" % i, replay, "model/implementation disagree on a fault case: " + what)
+                    ctx.violation("ts_fault_model_%d.txt" % (b0 + i), replay, "model/implementation disagree on a fault case: " + what)
                 elif "fault" in impl or "err" in impl:
                     ctx.violation("ts_d%d_%s.txt" % (d, c["kind"]), replay, what, sig=sig)
                 continue
@@ -337,8 +346,7 @@ def run_ts(ctx, variants=("plain", "asan")):
             if msg:
                 nbad += 1
                 if nbad <= 4:
-                    ctx.violation("ts_%s_%d.txt" % (variant, i), replay, "%s (%s, d=%d, n=%d, %s)" % (msg, c["kind"], d, n, c["pat"]))
-    ctx.extra.setdefault("distribution", {}).update({"ts": dist})
+                    ctx.violation("ts_%s_%d.txt" % (variant, b0 + i), replay, "%s (%s, d=%d, n=%d, %s)" % (msg, c["kind"], d, n, c["pat"]))
     return nbad
 
 
